@@ -274,6 +274,42 @@ def run(ctx):
         if any(a < b for a, b in zip(counts, counts[1:])):
             v(f"PELT(L2Cost) reports more changepoints for a larger penalty_scale: scales [0.2,1,3,9] -> counts {counts}",
               {"X": x.tolist(), "counts": counts}, {"what": "pelt-monotone", "real": True})
+    # ---- the same on INTEGER-typed data (small integers, many ties) with a fine grid of penalties, min_segment_length 1 ----
+    for rep in range(ctx.n(10, 60)):
+        n = rng.randint(15, 30)
+        xi = np.asarray([rng.randint(-3, 3) for _ in range(n)], dtype=np.int64)
+        Xi = pd.DataFrame(xi)
+        grid = [0.05 * k for k in range(2, 40)]
+        counts = [len(PELT(cost=L2Cost(), penalty_scale=s_, min_segment_length=1).fit(Xi).predict(Xi)) for s_ in grid]
+        cf = [len(PELT(cost=L2Cost(), penalty_scale=s_, min_segment_length=1).fit(Xi.astype(float)).predict(Xi.astype(float))) for s_ in grid]
+        ctx.case({"mono-int": rep, "x": xi.tolist()}, nontrivial=counts[0] > 0)
+        if any(a < b for a, b in zip(counts, counts[1:])) or counts != cf:
+            v(f"PELT(L2Cost) on integer-typed data: the number of changepoints is not non-increasing in the penalty, or differs from the same numbers as float64: "
+              f"{counts} vs float64 {cf}", {"x": xi.tolist(), "scales": grid, "counts": counts, "counts_float64": cf}, {"what": "pelt-monotone", "real": True, "dtype": "int64"})
+    # ---- update(X2) after fit(X1): the fitted threshold / penalty is the documented value for the COMBINED training data ----
+    from skchange.anomaly_detectors import CAPA as _CAPAu, CircularBinarySegmentation as _CBSu
+    from skchange.change_detectors import MovingWindow as _MWu, SeededBinarySegmentation as _SBSu
+    for rep in range(ctx.n(3, 12)):
+        n1, n2, p_ = rng.randint(30, 60), rng.randint(20, 50), rng.choice([1, 2])
+        Xa = pd.DataFrame(np.asarray([[rng.gauss(0, 1) for _ in range(p_)] for _ in range(n1 + n2)]))
+        X1, X2 = Xa.iloc[:n1], Xa.iloc[n1:]
+        for name, mk, attr in [("PELT", lambda: PELT(penalty_scale=1.5), "penalty_"), ("SeededBinarySegmentation", lambda: _SBSu(threshold_scale=1.5), "threshold_"),
+                               ("MovingWindow", lambda: _MWu(bandwidth=5, threshold_scale=1.5), "threshold_"), ("CircularBinarySegmentation", lambda: _CBSu(threshold_scale=1.5), "threshold_"),
+                               ("CAPA", lambda: _CAPAu(collective_penalty_scale=1.5), "collective_penalty_"),
+                               ("SeededBinarySegmentation(tuned)", lambda: _SBSu(threshold_scale=None, level=0.1), "threshold_"),
+                               ("MovingWindow(tuned)", lambda: _MWu(bandwidth=5, threshold_scale=None, level=0.1), "threshold_")]:
+            try:
+                d_up = mk().fit(X1)
+                d_up.update(X2)
+                want = getattr(mk().fit(Xa), attr)
+                got = getattr(d_up, attr)
+            except Exception as ex:
+                v(f"{name}: fit(X1).update(X2) raised {type(ex).__name__}: {str(ex)[:100]}", {"detector": name, "n1": n1, "n2": n2, "p": p_}, {"what": "update-exception", "detector": name})
+                continue
+            ctx.case({"update": name, "rep": rep}, nontrivial=True)
+            if not np.allclose(np.asarray(got, dtype=float), np.asarray(want, dtype=float), rtol=1e-12, atol=0.0):
+                v(f"{name}: after fit on {n1} rows and update with {n2} more, {attr} = {got!r}; the documented value for the {n1 + n2} training rows (a fresh fit on all of them) is {want!r}",
+                  {"detector": name, "n1": n1, "n2": n2, "p": p_, "X": Xa.to_numpy().tolist()}, {"what": "update-fitted-value", "detector": name})
     sys.path.pop(0)
     # ---- p is the NUMBER OF COLUMNS of the training data, whatever their labels: frames whose columns share a label ----
     import pandas as _pd
